@@ -143,7 +143,10 @@ class L1_plus_L2(BasePenalty):
 
     def alpha_max(self, gradient0):
         """Return penalization value for which 0 is solution."""
-        return np.max(np.abs(gradient0))
+        # 0 is solution iff ||gradient0||_inf <= alpha * l1_ratio
+        if self.l1_ratio == 0.:
+            return np.inf
+        return np.max(np.abs(gradient0)) / self.l1_ratio
 
 
 class WeightedL1(BasePenalty):
